@@ -471,6 +471,9 @@ impl<'a> Model<'a> {
     fn dl(&self, t: &Ty, s: &mut String) {
         match t {
             Ty::Prim(_) | Ty::Phantom(_) | Ty::String | Ty::BoxStr | Ty::RangeFull | Ty::Range(..) => {}
+            // no value of the element type is ever stored in a zero-length array (like PhantomData): its
+            // memory layout cannot be observed in any stream, and the published alignment hash skips it
+            Ty::Array(_, _) if t.array_len() == 0 => {}
             Ty::Vec(e) | Ty::BoxSlice(e) | Ty::Array(e, _) | Ty::Tuple(e, _) | Ty::Option(e) | Ty::Bound(e) => self.dl(e, s),
             Ty::ControlFlow(b, c) => {
                 self.dl(b, s);
